@@ -39,18 +39,28 @@ def mixed_alpha(case):
     return len(alphas) > 1
 
 
+def tolerated_crossing(vs):
+    """some order ends with crossed bounds that NO formula reports as a contradiction (they lie inside one classical region of
+    a formula with alpha < 1): the signature of D16"""
+    for v in vs:
+        if v["contra"] == "c 0" and any(lo > hi for lo, hi in streams.parse_dump(v["final"])):
+            return True
+    return False
+
+
 def oracle(rec):
     vs = rec["meta"]["variants"]
     if rec["safe_upto"] < len(rec["lines"]):
         return None          # some value left the exactly representable range: not judged
     contras = {v["contra"] for v in vs}
+    flags = {"mixed_alpha": mixed_alpha(rec["prog"]), "tolerated_crossing": tolerated_crossing(vs)}
     if len(contras) > 1:
-        return {"problem": "whether a contradiction is found depends on the order", "mixed_alpha": mixed_alpha(rec["prog"]),
-                "variants": [(v["kind"], v["roots"], v["contra"]) for v in vs]}
+        return dict(flags, problem="whether a contradiction is found depends on the order",
+                    variants=[(v["kind"], v["roots"], v["contra"]) for v in vs])
     if vs[0]["contra"] == "c 0":
         finals = {v["final"] for v in vs}
         if len(finals) > 1:
-            return {"problem": "fixpoint depends on the order", "variants": [(v["kind"], v["roots"], v["final"]) for v in vs]}
+            return dict(flags, problem="fixpoint depends on the order", variants=[(v["kind"], v["roots"], v["final"]) for v in vs])
     return None
 
 
@@ -67,7 +77,7 @@ def run(rep, tier, seed):
         wrec["safe_upto"] = len(wrec["lines"])
         wbad = oracle(wrec)
         rep.extra["known_finding_D16_witness_reproduces"] = bool(wbad)
-        if wbad and wbad.get("mixed_alpha"):
+        if wbad and wbad.get("mixed_alpha") and wbad.get("tolerated_crossing"):
             rep.enable_known("D16")
     n = size(tier, 120, 2500)
     cases = [gen_case(seed, k, "interp") for k in range(n // 2)] + [gen_case(seed, k + 10 ** 6, "given") for k in range(n - n // 2)]
